@@ -17,6 +17,7 @@ func init() {
 			ruleArrBound(c)
 			ruleDstFresh(c)
 			rulePCNew(c)
+			ruleRegExact(c)
 			c.Assume = append(c.Assume, "reflect.Int is 64 bits wide (linux/amd64); on a 32-bit target the Int -> Int64Codec row would be a finding")
 		})
 }
@@ -37,6 +38,8 @@ func init() {
 			ruleBTArrMap(c)
 			ruleALBump(c)
 			ruleArrBound(c)
+			ruleODBank(c, findReadFile(c.P))
+			ruleALOwner(c)
 		})
 }
 
@@ -66,6 +69,8 @@ func init() {
 			rulePCNew(c)
 			ruleTSWide(c)
 			ruleTSNarrow(c)
+			ruleTSFloor(c)
+			ruleTSTotal(c)
 		})
 
 	register("C20",
@@ -83,5 +88,7 @@ func init() {
 			ruleSGNull(c)
 			ruleOMValid(c)
 			ruleALBuf(c)
+			ruleRegExact(c)
+			ruleRegAlways(c)
 		})
 }
